@@ -2,6 +2,8 @@
 
 usage: crash_child.py <kind> <store path> <json op>
 op: ["put", name, body-id] | ["delete", name] | ["set", property, value]
+    | ["http", method, name, body-id or null, content-type or null]   (the same operation as ONE request to the WSGI application
+      whose root is the parent directory of the store; PROPPATCH: name = property key, body-id = value)
 """
 import json
 import os
@@ -15,6 +17,22 @@ from xv.core import bodies as B  # noqa: E402
 from xv.core import storesys  # noqa: E402
 
 kind, path, op = sys.argv[1], sys.argv[2], json.loads(sys.argv[3])
+if op[0] == "http":
+    from xv.core import dav, http  # noqa: E402
+
+    w = http.WsgiWorld(os.path.dirname(path))
+    coll = "/" + os.path.basename(path) + "/"
+    _, method, name, bid, ctype = op
+    if method == "PROPPATCH":
+        r = w.request("PROPPATCH", coll, dav.XML_CT, dav.proppatch_body(sets=[({"displayname": dav.P_DISPLAYNAME, "description": dav.P_CALDESC, "color": dav.P_CALCOLOR}[name], bid)]))
+        ok = r.status == 207 and b"200 OK" in r.body
+    else:
+        r = w.request(method, coll + name, {"Content-Type": ctype} if ctype else {}, B.ALL_BODIES[bid] if bid else b"")
+        ok = r.status in (200, 201, 204)
+    if not ok:
+        raise SystemExit("request failed: %s %s %s" % (r.status, r.exc, r.body[:200]))
+    print("ACK")
+    raise SystemExit(0)
 st = storesys.open_store(kind, path)
 if op[0] == "put":
     st.import_one(op[1], "text/calendar" if op[1].endswith(".ics") else "text/vcard", [B.ALL_BODIES[op[2]]])
